@@ -58,12 +58,21 @@ class HistGen:
             ps = [p for p in ps if (p.supply(led) > 0) == funded] or self.w.pairs
         return self.rng.choice(ps)
 
-    def maybe_to(self, actor):
+    def maybe_to(self, actor, pair=None, offer=None):
         r = self.rng.random()
-        if r < 0.6:
+        if r < 0.58:
             return None
-        if r < 0.7:
+        if r < 0.68:
             return actor
+        if r < 0.76 and pair is not None:
+            # contracts as designated receivers: the token being sold, the token being bought, the pair, its LP token, the router
+            cands = [a[1] for a in pair.assets if a[0] == "t"] + [pair.addr, pair.lp, self.w.router, self.w.factory]
+            if offer is not None and offer[0] == "t":
+                cands += [offer[1], offer[1]]
+            return self.rng.choice(cands)
+        if r < 0.79:
+            # strings that are not valid addresses: the call must fail, never fall back to another receiver
+            return self.rng.choice(["Recv", "RECV", "re", "", "r" * 64, "Trader1"])
         return self.rng.choice([a for a in self.recipients if a != actor])
 
     def sim_quote(self, pair, offer, amount):
@@ -103,7 +112,7 @@ class HistGen:
             belief = max(1, int(price * rng.choice([0.5, 0.9, 1.0, 1.0, 1.1, 2.0])))
             if belief > M128:
                 belief = None
-        op = w.op_swap(actor, p, offer, amount, to=self.maybe_to(actor), belief=belief, max_spread=max_spread)
+        op = w.op_swap(actor, p, offer, amount, to=self.maybe_to(actor, p, offer), belief=belief, max_spread=max_spread)
         if window:
             op["sem"]["window_try"] = True
         return op, self.sim_quote(p, offer, amount)
@@ -496,6 +505,16 @@ class HistGen:
             to = rng.choice(self.recipients)
         elif r < 0.5:
             to = rng.choice([p.addr for p in w.pairs] + [w.router])
+        hops = spec["hops"]
+        final = hops[-1][1]
+        revisit = final in [a for _, a in hops[:-1]] or final == hops[0][0]
+        if revisit and rng.random() < 0.35:
+            # the recipient is a contract that itself pays out the final asset during the route
+            pools = [w.pair_for(o, a) for o, a in hops]
+            payers = [p.addr for (o, a), p in zip(hops[:-1], pools[:-1]) if p and a == final] + [w.router]
+            to = rng.choice(payers)
+            q = quote_amount if quote_amount is not None else rng.getrandbits(40)
+            m = rng.choice([q + 1, q + 1 + rng.randrange(0, q + 2), 2 * q + 1, max(0, q - 1), 1])
         op = w.op_route(actor, spec["hops"], spec["amount"], minimum_receive=m, to=to)
         op["sem"]["quote"] = quote_amount
         return op
